@@ -66,6 +66,7 @@ def leaf(it, kind, name):
     cls = flt.SelfPath if kind == "volatile" else flt.RootPath
     o = it.alloc(cls, {"volatile": vol, "path": it.alloc(mod("jsonpath.path").JSONPath, {"selectors": S.mk_tuple([]), "env": env_obj(it), "fake_root": S.FALSE}, origin="QUERY")}, origin="QUERY")
     o.abstract = True  # evaluate() is the abstract contract, children()/set_children() are the real methods
+    o.fields["abs_id"] = it.obj_term(o)
     return o
 
 
@@ -105,6 +106,7 @@ def _register_cache_tree(shape):
         def run(it):
             it.abstract_compare = True
             it.inline_cache_tree = True
+            it.no_pre_obligations = True  # operand preconditions of compare/is_truthy belong to the C02 node contracts
             for o in it.heap.values():
                 pass
             expr = SHAPES[shape](it)
@@ -116,10 +118,16 @@ def _register_cache_tree(shape):
             # non-volatile sub-expressions read only (root, extra context): their abstract evaluate
             # agrees on the two contexts (the `reads` contract, by induction over the tree)
             for o in list(it.heap.values()):
-                if isinstance(o, SymObj) and o.cls is flt.RootPath:
-                    a = lib.expr_evaluate(it.obj_term(o), FN.ctx_term(ctxv1))
-                    b = lib.expr_evaluate(it.obj_term(o), FN.ctx_term(ctxv2))
-                    it.assume(a == b)
+                if isinstance(o, SymObj) and o.cls in (flt.RootPath, flt.SelfPath):
+                    a = lib.expr_evaluate(o.fields["abs_id"], FN.ctx_term(ctxv1))
+                    b = lib.expr_evaluate(o.fields["abs_id"], FN.ctx_term(ctxv2))
+                    if o.cls is flt.RootPath:
+                        it.assume(a == b)
+                    # the caching wrapper treats values opaquely; restricting the leaves' values to
+                    # (arbitrary) ints keeps the four evaluations below from forking on value kinds -
+                    # the unwrapping of nodelists is InfixExpression.evaluate's own contract (C02)
+                    it.assume(Py.is_int(a))
+                    it.assume(Py.is_int(b))
             tree = it.run_function(method(flt.BooleanExpression, "cache_tree"), [boolexpr], {})
             after = heap_snapshot(it)
             unchanged = len(before) == len(after) and all(x[:2] == y[:2] and z3.eq(x[2], y[2]) for x, y in zip(before, [a for a in after if a[0] in {b[0] for b in before}]))
